@@ -1,6 +1,6 @@
 From Coq Require Import List NArith ZArith Bool Arith.
 Import ListNotations.
-From Stam Require Import Base.Sx Model.Offset Model.Store Model.Loader Model.Csv Spec.CsvSpec Proofs.Loader Proofs.Csv Proofs.CsvSet Props.C15.
+From Stam Require Import Base.Sx Model.Offset Model.Store Model.Loader Model.Csv Spec.CsvSpec Proofs.Loader Proofs.StoreSets Proofs.Csv Proofs.CsvSet Proofs.CsvResolve Props.C15.
 Check (C15_split_join : forall l, (forall x, In x l -> has_semi x = false) -> l <> [] -> split (join_semi l) = l).
 Check (C15_column_shape : forall own l, own ++ push_all l = column_spec own l).
 Check (C15_kind_roundtrip : forall k, kind_of_str (kind_str k) = Ok k).
@@ -25,7 +25,18 @@ Check (C15_offset_relative : forall pb pe b e m len, pb <= b -> b <= e -> e <= p
     /\ selection_ts (pb, pe) (mkoff (ocur cb) (ocur ce)) = Offset.Ok (b, e)).
 Check (C15_set_file_roundtrip : forall d rows, dset_ok d -> save_set d = Some rows ->
   exists d', load_set (name_set (d_id d)) rows = Some d' /\ content_set d' = content_set d).
+Check (C15_reresolve : forall ops h a r, Forall op_ok ops ->
+  store_ok (run ops) = true -> ids_fit (run ops) -> get_ann (run ops) h = Some a -> shape_ok a ->
+  pack_row (run ops) h a = Some r ->
+  exists bs ds tb lfs',
+    csv_row_now r = Ok {| Loader.ab_id := opt (id_column h a); Loader.ab_data := ds;
+                          Loader.ab_target := Some (target_of (a_kind a) bs) |}
+    /\ target_of_loader (target_of (a_kind a) bs) = Some tb
+    /\ resolve_target (run ops) tb = (run ops, Some (a_kind a, lfs'))
+    /\ map (leaf_desc (run ops)) lfs' = map (leaf_desc (run ops)) (a_leaves a)
+    /\ refs_resolve (run ops) a ds).
 Print Assumptions C15_split_join.
+Print Assumptions C15_reresolve.
 Print Assumptions C15_set_file_roundtrip.
 Print Assumptions C15_column_shape.
 Print Assumptions C15_kind_roundtrip.
